@@ -122,6 +122,11 @@ def c18(ctx):
     ev = read_ndjson(ctx.path("samples.trace"))
     ctx.evaluations += len(ev)
     session_histories(ctx, "C18")
+    # the sampler as the joint-space planner uses it: a robot with a wrap-around range, collision checks off
+    opwv(ctx, ["replay", "wrapsampling", ctx.path("wrap.out")])
+    st = replay_results(ctx, ctx.path("wrap.out"), "C18")
+    ctx.evaluations += st.get("evaluations", 0)
+    ctx.extra["plans_with_wrap_around_limits"] = st.get("nontrivial", 0)
     for e in ev:
         ctx.nontrivial.add((tuple(e["from"]), tuple(e["to"])))
     ctx.sample(ev[0])
